@@ -29,7 +29,8 @@ def describe(tier):
                                     '+-inf, nan, +-0.0, 5e-324, 2**-25 -+ 1ulp',
                             mxint='every k/128, |k| <= 300, -+ 1 ulp', e8m0='every 2**k, |k| <= 130, and binary64 neighbours',
                             bfloat='16k-pattern binary32 family, every bfloat midpoint -+ 1ulp (as binary32 values) on a stride, overflow values',
-                            scales=[2, 0.5, 2 ** -6, 3, 2 ** 10]),
+                            scales=[2, 0.5, 2 ** -6, 3, 2 ** 10, 4], scaled_build_values='floats and ints (an int value with an int scale must be divided exactly, not floored)',
+                            option_setter='a rejected assignment to options.mxfp_overflow leaves the setting (and the encodings) as they were'),
                 rule='every (format, mode, input, route) of the product executed once; non-trivial = the model yields a code (input is not NaN for formats '
                      'without NaN, not a non-power-of-two for e8m0)',
                 assumptions=['the float -> binary16 step is constant on each binary16 rounding interval, whose end points are all enumerated; '
@@ -113,6 +114,7 @@ def run_shard(shard, acc):
             run_bfloat_encode(bs, acc)
         elif k == 'scaled':
             run_scaled(bs, acc)
+            run_option_setter(bs, acc)
     core.set_options()
 
 
@@ -335,8 +337,51 @@ def run_bfloat_encode(bs, acc):
         acc.outcome(('bfloat-enc', min(exp)))
 
 
+def run_option_setter(bs, acc):
+    """A rejected assignment to options.mxfp_overflow changes nothing: every sequence of <= 3 assignments (valid and invalid), then encodings."""
+    import itertools
+    vals = ['saturate', 'overflow', 'Overflow', '', None, 0, 'saturate ']
+    probes = [('e5m2mxfp', 1e6), ('e4m3mxfp', 1000.0), ('e5m2mxfp', float('inf')), ('e4m3mxfp', -1e9)]
+    n = 0
+    for k in (1, 2, 3):
+        for hist in itertools.product(vals, repeat=k):
+            core.set_options()
+            cur = 'saturate'
+            for v in hist:
+                try:
+                    bs.options.mxfp_overflow = v
+                    accepted = True
+                except ValueError:
+                    accepted = False
+                if v in ('saturate', 'overflow'):
+                    cur = v
+                bad = None
+                if accepted != (v in ('saturate', 'overflow')):
+                    bad = f"assignment of {v!r} was {'accepted' if accepted else 'rejected'}"
+                elif bs.options.mxfp_overflow != cur:
+                    bad = f"setting reads {bs.options.mxfp_overflow!r} after a rejected assignment, expected {cur!r}"
+                else:
+                    for name, x in probes:
+                        got = obs(lambda: int(bs.Bits(**{name: x}).bin, 2))
+                        e = M.FORMATS[name].encode(x, cur)
+                        n += 1
+                        if not (got[0] == 'ok' and got[1] in e):
+                            bad = f"{name}={x} encoded as {got} under {cur!r}"
+                            break
+                if bad:
+                    acc.violation('encode', 'value', dict(history=[repr(h) for h in hist], problem=bad, group='option-setter'),
+                                  '\n'.join(["import bitstring"] + [line for h in hist for line in ("try:", f"    bitstring.options.mxfp_overflow = {h!r}", "except ValueError:", "    pass")] +
+                                            [f"assert bitstring.options.mxfp_overflow == {cur!r}, bitstring.options.mxfp_overflow", f"assert bitstring.Bits(e5m2mxfp=1e6).bin == bitstring.Bits(uint={sorted(M.FORMATS['e5m2mxfp'].encode(1e6, cur))[0]}, length=8).bin"]),
+                                  cur, bad)
+                    break
+            acc.state(('option-history', tuple(map(repr, hist))))
+    core.set_options()
+    acc.step('encode', n, nontrivial=n, ok=n)
+    acc.sample(dict(event="all sequences of <= 3 assignments to options.mxfp_overflow from 7 values (2 valid); the setting and 4 encodings after each"))
+
+
 def run_scaled(bs, acc):
-    scales = [2, 0.5, 2 ** -6, 3, 2 ** 10]
+    scales = [2, 0.5, 2 ** -6, 3, 2 ** 10, 4]
     for name in LUT_FORMATS + ['mxint', 'bfloat']:
         for sc in scales:
             d = bs.Dtype(name, scale=sc)
@@ -360,6 +405,17 @@ def run_scaled(bs, acc):
                 if got != ('ok', exp):
                     acc.violation('scaled', 'value', dict(fmt=name, scale=sc, code=code, what='parse'),
                                   '\n'.join(["import bitstring", f"r = bitstring.Dtype({name!r}, scale={sc!r}).parse(bitstring.Bits(bin={bits!r}))", f"assert ('nan' if r != r else r.hex()) == {exp!r}, r"]), exp, got)
+                # Dtype objects where a string is usual: unpack / readlist / read with the scaled Dtype object
+                if code % 7 == 0:
+                    for rname, th, rsrc in (('unpack', lambda: bs.Bits(bin=bits + '1').unpack([d, 'bin'])[0], "bitstring.Bits(bin=B + '1').unpack([D, 'bin'])[0]"),
+                                            ('readlist', lambda: bs.ConstBitStream(bin=bits).readlist([d])[0], "bitstring.ConstBitStream(bin=B).readlist([D])[0]"),
+                                            ('read', lambda: bs.ConstBitStream(bin=bits).read(d), "bitstring.ConstBitStream(bin=B).read(D)"),
+                                            ('peeklist', lambda: bs.BitStream(bin=bits).peeklist([d, d][:1])[0], "bitstring.BitStream(bin=B).peeklist([D])[0]")):
+                        got = obs(th, fx)
+                        acc.step('scaled', 1, nontrivial=1, ok=1)
+                        if got != ('ok', exp):
+                            acc.violation('scaled', 'value', dict(fmt=name, scale=sc, code=code, what=rname, group=f'scaled|{rname}'),
+                                          '\n'.join(["import bitstring", f"D = bitstring.Dtype({name!r}, scale={sc!r}); B = {bits!r}", f"r = {rsrc}", f"assert ('nan' if r != r else r.hex()) == {exp!r}, r"]), exp, got)
                 # array read with a scaled dtype
                 if code % 5 == 0:
                     got = obs(lambda: bs.Array(d, bs.Bits(bin=bits)).tolist()[0], fx)
@@ -369,7 +425,7 @@ def run_scaled(bs, acc):
                                       '\n'.join(["import bitstring", f"r = bitstring.Array(bitstring.Dtype({name!r}, scale={sc!r}), bitstring.Bits(bin={bits!r})).tolist()[0]",
                                                  f"assert ('nan' if r != r else r.hex()) == {exp!r}, r"]), exp, got)
             # build: a scale divides the value before encoding
-            xs = [0.0, 1.0, -1.5, 0.3, 7.0, 100.0, -1000.0, 1e6, 0.01, 65504.0, 3.3, 448.0, 6.0, 57344.0, 1e-3, -0.0]
+            xs = [0.0, 1.0, -1.5, 0.3, 7.0, 100.0, -1000.0, 1e6, 0.01, 65504.0, 3.3, 448.0, 6.0, 57344.0, 1e-3, -0.0, 6, 7, 1, -3, 5, 100, 2 ** 40]
             for x in xs:
                 e = enc(x / sc)
                 got = obs(lambda: d.build(x), lambda r: int(r.bin, 2))
